@@ -73,6 +73,26 @@ func BuildCopyBin(scn M, rng *rand.Rand) (oids []int, st *binStream) {
 			oids[j] = binTypes1[rng.Intn(len(binTypes1))]
 		}
 	}
+	// "twins": every column has another 8-byte type, and within a row all of them carry the very same bytes
+	// (an int8, a float8 and two timestamps that happen to be encoded alike): each field is decoded under the type of
+	// its own column
+	twins := false
+	if ncols >= 2 && I(scn, "_i")%5 == 2 && S(Sub(scn, "corrupt"), "kind") != "width" {
+		twins = true
+		for j := 0; j < ncols; j++ {
+			for _, rv := range table {
+				if row := rv.([]any); j < len(row) && S(AsM(row[j]), "c") == "e" {
+					twins = false
+				}
+			}
+		}
+		if twins {
+			perm := rng.Perm(4)
+			for j := 0; j < ncols; j++ {
+				oids[j] = []int{20, 701, 1114, 1184}[perm[j%4]]
+			}
+		}
+	}
 	st = &binStream{}
 	if B(scn, "hdr") {
 		// flags: the low 16 bits are free for the sender; then the length of the header extension area and the
@@ -95,6 +115,9 @@ func BuildCopyBin(scn M, rng *rand.Rand) (oids []int, st *binStream) {
 	corrupt := Sub(scn, "corrupt")
 	for ri, rv := range table {
 		row := rv.([]any)
+		twinRaw := make([]byte, 8)
+		twinRaw[7] = byte(1 + rng.Intn(200))
+		twinRaw[6] = byte(rng.Intn(3))
 		cnt := len(row)
 		if S(corrupt, "kind") == "cnt" && I(corrupt, "row") == ri+1 {
 			cnt = I(corrupt, "to")
@@ -135,6 +158,10 @@ func BuildCopyBin(scn M, rng *rand.Rand) (oids []int, st *binStream) {
 					if len(enc) >= n && len(enc) > 0 {
 						break
 					}
+				}
+				if twins {
+					enc = append([]byte{}, twinRaw...)
+					canon, _ = Types[oid].Binary(enc)
 				}
 				f["val"] = pgw.Dig([]byte(canon))
 				if S(corrupt, "kind") == "width" && I(corrupt, "row") == ri+1 && I(corrupt, "col") == j+1 {
